@@ -51,7 +51,7 @@ try:
         for c in checks:
             t0 = time.time()
             rc, out = run([os.path.join(VERIF, "check"), c, "--tier", a.tier],
-                          env={"CORANKCO_REPO": wt, "VERIF_NO_EVIDENCE": "1"}, timeout=3600)
+                          env={"CORANKCO_REPO": wt, "VERIF_NO_EVIDENCE": "1", "VERIF_REPLAY_SUFFIX": "_eval_" + os.path.basename(wt)}, timeout=3600)
             viol = [l for l in out.splitlines() if l.startswith("VIOLATION-SUMMARY")]
             res["checks"][c] = {"rc": rc, "caught": rc == 1, "wall_s": round(time.time() - t0, 1),
                                 "summary": viol[:6], "tail": out.strip().splitlines()[-1][:200] if out.strip() else ""}
